@@ -5,7 +5,7 @@
 (* An exported unit tree is  S (sequence of scope records, S[i].id = i)    *)
 (* and O (sequence of symbol occurrences), see harness/lib_wfir.py:        *)
 (*  scope [id, kind, name, parent, encl, tparent, declared, imported,      *)
-(*         assoc, wild]   parent / tparent: the object the scope's parent  *)
+(*         assoc, wild, decls]   parent / tparent: the object the scope's parent  *)
 (*         pointer (its symbol table's parent) refers to; encl: the scope   *)
 (*         that structurally encloses it (0 = none; -1 = a foreign object)  *)
 (*  occurrence [name, kind, scope, at, role, member]                        *)
@@ -22,6 +22,9 @@
 (*                (resolved through the parent's type), names of procedures *)
 (*                (external procedures and intrinsics need no declaration), *)
 (*                chains with a USE without ONLY (cannot be decided)        *)
+(*  UniqueNames   the names declared by the declaration statements of one  *)
+(*                scope are pairwise different (decls: case-folded names,   *)
+(*                one entry per declaration; Fortran is case-insensitive)   *)
 (*  FrontendAccepts / CompilerAccepts   recorded facts: the generated code  *)
 (*                re-parses; gfortran -fsyntax-only accepts it              *)
 (* Offenders already present before the transformation (c.exempt) are not   *)
@@ -44,10 +47,14 @@ ResolveRoles == {"use", "kind"}
 MustResolve(o) == o.kind \in VarKinds /\ ~o.member /\ o.role \in ResolveRoles
 ResolvableOK(S, o) == MustResolve(o) => (o.name \in Visible(S, o.at) \/ Undecidable(S, o.at))
 
+Duplicated(sc) == {sc.decls[i] : i \in {j \in 1..Len(sc.decls) : \E k \in 1..Len(sc.decls) : k # j /\ sc.decls[k] = sc.decls[j]}}
+UniqueNamesOK(sc) == Duplicated(sc) = {}
+
 \* offenders as <<clause, name, kind>>
 Offenders(S, O) ==
   {<<"PL", S[i].name, S[i].kind>> : i \in {j \in 1..Len(S) : ~ParentLinkOK(S[j])}}
   \cup {<<"SC", O[i].name, O[i].kind \o (IF O[i].scope = 0 THEN "-unattached" ELSE "")>> : i \in {j \in 1..Len(O) : ~ScopeOnChainOK(S, O[j])}}
+  \cup {<<"UN", n, "var">> : n \in UNION {Duplicated(S[i]) : i \in 1..Len(S)}}
   \cup {<<"RS", O[i].name, O[i].kind>> : i \in {j \in 1..Len(O) : ~ResolvableOK(S, O[j])}}
 WellFormed(S, O) == Offenders(S, O) = {}
 =============================================================================
